@@ -22,6 +22,10 @@ with Biopython once per distinct string):
   translate            translate_dna_to_protein on rows whose lengths are multiples of 3: all 64 codons in every
                        case pattern, every concatenation of <= 2 (thorough: 3) codons, lists of rows with
                        0..3 codons each; output row r has len(row r)/3 symbols, codon by codon, stop = '*'.
+  code-storage         (added scope, "contract 5" below) reverse_complement / strand_specific / genomic_sequence on
+                       sequences NOT made from text: raw codes stored as int8..uint64 / big-endian, strided and
+                       Fortran-ordered views, arrays from bionumpy.simulate (int64 codes), GenomicSequence.from_dict over
+                       such chromosomes.  Signatures <contract>:code-storage:<storage class>:<what>.
 """
 import itertools
 import os
@@ -905,6 +909,441 @@ def enum_translate(col, tier):
 
 
 # ----------------------------------------------------------------------------------------------------------------
+# contract 5 (added scope "code-storage"): the same three contracts on sequences that were NOT made from text.
+#
+# An EncodedArray is (raw integer codes, encoding); the raw codes may be stored in any integer dtype (the class
+# docstring builds one from np.array([0, 1, 2, 3]); bionumpy.simulate draws them with rng.choice -> int64) and the
+# array may be a view (strided, Fortran order).  The property speaks about the SEQUENCE, so the result must not depend
+# on how the codes are stored.  Axes added here:
+#   dtype   uint8 (control) int8 int16 uint16 int32 uint32 int64 uint64, thorough also big-endian >i2 >i4 >i8
+#   layout  contiguous | strided view (every 2nd slot of a buffer whose other slots hold other valid codes) |
+#           Fortran-ordered 2-D matrix
+#   source  codes written by the spec-level encoder below (code = position in the alphabet, ASCII = ord) |
+#           bionumpy.simulate.sequences.simulate_sequence / simulate_sequences (public API; int64 codes)
+# The input text is never obtained from bionumpy: for source=codes it is the string the codes were computed from, for
+# source=simulate it is decoded from the raw codes with the alphabet (alphabet[code]).
+
+ALPHABET = {"acgt": "ACGT", "acgtn": "ACGTN", "actg": "ACTG", "actgn": "ACTGN"}
+CODE_SYMBOLS = {"ascii": "ACGTNacgtn", "acgt": "ACGT", "acgtn": "ACGTN", "actg": "ACTG", "actgn": "ACTGN"}
+DTYPES_QUICK = ["int16", "int32", "int64", "uint64"]
+DTYPES_ALL = ["int8", "int16", "uint16", "int32", "uint32", "int64", "uint64", ">i2", ">i4", ">i8"]
+STORAGE_TAG = "code-storage"
+
+
+def codes_of(s, enc_name):
+    """spec-level encoder: ASCII code, or the position of the (upper-cased) symbol in the encoding's alphabet"""
+    if enc_name == "ascii":
+        return [ord(c) for c in s]
+    return [ALPHABET[enc_name].index(c.upper()) for c in s]
+
+
+def storage_class(dtype, layout):
+    """part of the signature: one defect class per way of storing the codes - not per dtype, encoding, container or
+    origin of the array (these are in the recorded case and in the message)"""
+    import numpy as np
+    base = "one-byte-codes" if np.dtype(dtype).itemsize == 1 else "multi-byte-codes"
+    return base if layout == "contiguous" else base + ":non-contiguous-view"
+
+
+def code_array(codes, enc_name, dtype, layout, shape=None):
+    """numpy array of the given dtype / layout holding `codes` (reshaped to `shape` for a matrix)"""
+    import numpy as np
+    a = np.array(codes, dtype=np.int64).astype(np.dtype(dtype))
+    if layout == "strided":
+        n_codes = 0 if enc_name == "ascii" else len(ALPHABET[enc_name])
+        filler = [ord("ACGT"[c % 4]) for c in codes] if enc_name == "ascii" else [(c + 1) % n_codes for c in codes]
+        buf = np.zeros(2 * len(codes), dtype=np.dtype(dtype))
+        buf[::2] = a
+        buf[1::2] = np.array(filler, dtype=np.int64).astype(np.dtype(dtype))
+        a = buf[::2]
+    if shape is not None:
+        a = a.reshape(shape)
+        if layout == "fortran":
+            a = np.asfortranarray(a)
+    return a
+
+
+def build_codes(strings, enc_name, container, dtype, layout):
+    from bionumpy.encoded_array import EncodedArray, EncodedRaggedArray
+    enc = get_encoding(enc_name)
+    if container == "flat":
+        return EncodedArray(code_array(codes_of(strings[0], enc_name), enc_name, dtype, layout), enc)
+    codes = [c for s in strings for c in codes_of(s, enc_name)]
+    if container == "ragged":
+        return EncodedRaggedArray(EncodedArray(code_array(codes, enc_name, dtype, layout), enc), [len(s) for s in strings])
+    if container == "matrix":
+        return EncodedArray(code_array(codes, enc_name, dtype, layout, (len(strings), len(strings[0]))), enc)
+    raise ValueError(container)
+
+
+def decode_codes(raw, alphabet):
+    return "".join(alphabet[int(c)] for c in raw)
+
+
+def simulated(spec):
+    """spec: {'alphabet', 'lengths' (int: one sequence; list: simulate_sequences rows), 'rng': seed, 'as': flat|ragged|entry}.
+    Returns (value for the function under test, rows as text decoded from the raw codes, dtype name of the codes)"""
+    import numpy as np
+    from bionumpy.simulate.sequences import simulate_sequence, simulate_sequences
+    rng = np.random.default_rng(spec["rng"])
+    if spec["as"] == "flat":
+        x = simulate_sequence(spec["alphabet"], spec["lengths"], rng)
+        raw = np.asarray(x.raw())
+        return x, [decode_codes(raw, spec["alphabet"])], raw.dtype.name
+    entry = simulate_sequences(spec["alphabet"], {"r%d" % i: L for i, L in enumerate(spec["lengths"])}, rng)
+    raw = np.asarray(entry.sequence.ravel().raw())
+    rows, k = [], 0
+    for L in spec["lengths"]:
+        rows.append(decode_codes(raw[k:k + L], spec["alphabet"]))
+        k += L
+    return (entry if spec["as"] == "entry" else entry.sequence), rows, raw.dtype.name
+
+
+def raw_snapshot(x):
+    import numpy as np
+    if hasattr(x, "sequence") and hasattr(x, "name"):
+        x = x.sequence
+    return np.array(x.ravel().raw()).tolist()
+
+
+def check_rc_codes(col, case):
+    """case: kind 'rc_codes'; either source=codes (strings, enc, container, dtype, layout) or source=simulate (sim spec).
+    Signatures: reverse_complement:code-storage:<storage class>:<what>"""
+    from bionumpy.sequence import get_reverse_complement
+    container = case["container"]
+    if case["source"] == "simulate":
+        built = col.guarded(lambda: simulated(case["sim"]), "build-input:%s:simulate" % STORAGE_TAG, case)
+        if built is None:
+            return
+        x, strings, dtype = built
+        ctype, layout = "alphabet(%s)" % case["sim"]["alphabet"], "contiguous"
+    else:
+        strings, ctype, dtype, layout = case["strings"], case["enc"], case["dtype"], case["layout"]
+        x = col.guarded(lambda: build_codes(strings, ctype, container, dtype, layout),
+                        "build-input:%s:%s:%s" % (STORAGE_TAG, ctype, container), case)
+        if x is None:
+            return
+    col.case(case, nontrivial=any(strings), contract="reverse_complement")
+    sig = "reverse_complement:%s:%s" % (STORAGE_TAG, storage_class(dtype, layout))
+    how = "(%s codes, %s, %s, %s)" % (dtype, layout, ctype, container)
+    canon_t = "ascii" if ctype == "ascii" else "upper"
+    before = raw_snapshot(x)
+    r = col.guarded(lambda: get_reverse_complement(x), sig, case)
+    if r is None:
+        return
+    got = col.guarded(lambda: rows_of(r), sig + ":result-type", case)
+    if got is None:
+        return
+    expected = [canon(canon_t, rc_model(s)) for s in strings]
+    in_rows = [canon(canon_t, s) for s in strings]
+    same_shape = col.check([len(g) for g in got] == [len(s) for s in strings], sig + ":row-lengths-changed", case,
+                           "row lengths %r, input row lengths %r %s" % ([len(g) for g in got], [len(s) for s in strings], how))
+    if same_shape:
+        col.check(got == expected, sig + ":wrong-sequence", case, "got %r expected %r %s" % (got, expected, how))
+    col.check(raw_snapshot(x) == before, sig + ":argument-modified", case, "the argument changed during the call " + how)
+    rr = col.guarded(lambda: rows_of(get_reverse_complement(r)), sig + ":second-application", case)
+    if rr is None:
+        return
+    col.check(rr == in_rows, sig + ":twice-not-identity", case, "rc(rc(x)) = %r, x = %r %s" % (rr, in_rows, how))
+
+
+def rc_codes_case(strings, enc_name, container, dtype, layout):
+    return {"kind": "rc_codes", "source": "codes", "strings": list(strings), "enc": enc_name, "container": container,
+            "dtype": dtype, "layout": layout}
+
+
+def storage_rng(col, part):
+    """sampling of the added scope has its own seeded generator (the samples of the original scope stay what they were)"""
+    import random
+    return random.Random("c14-code-storage-%s-%d" % (part, col.seed))
+
+
+def enum_rc_codes(col, tier):
+    quick = tier == "quick"
+    rng = storage_rng(col, "rc")
+    dtypes = DTYPES_QUICK if quick else DTYPES_ALL
+    single_max = {e: (2 if quick else 3) for e in CODE_SYMBOLS}
+    R, M = 3, 3
+    col.bounds["code_storage.reverse_complement"] = (
+        "code dtypes %s (+ uint8 for the view layouts); (a) every string up to length %r, 1-D, contiguous, every dtype "
+        "(length 3: two dtypes rotating with the string), strided view for one dtype rotating with the string; (b) every row-length vector with <= %d rows of length 0..%d x "
+        "{ragged; 2-D matrix when rows are equally long} x every dtype (quick: two dtypes rotating with the vector; thorough: a second "
+        "filling with three rotating dtypes, and every vector with 4 rows with two rotating dtypes), views (strided / Fortran order) for a dtype "
+        "rotating with the vector; (c) simulate_sequence of every length 0..12 and simulate_sequences of every row-length "
+        "vector with <= 3 rows of 0..3 (alphabets ACGT, ACGTN, ACTG, ACTGN; as EncodedRaggedArray and as SequenceEntry - quick: <= 2 rows); "
+        "(d) seeded longer lists (<= 6 rows, row length <= 12) with random dtype / layout"
+        % (dtypes, single_max, R, M))
+    view_dtypes = ["uint8"] + dtypes
+    k = 0
+    # (a) single strings, 1-D
+    for enc_name, maxlen in single_max.items():
+        for s in strings_upto(CODE_SYMBOLS[enc_name], maxlen):
+            k += 1
+            for dtype in (dtypes if len(s) <= 2 else [dtypes[k % len(dtypes)], dtypes[(k + 5) % len(dtypes)]]):
+                check_rc_codes(col, rc_codes_case([s], enc_name, "flat", dtype, "contiguous"))
+            if s and (len(s) <= 2 or k % 2):
+                check_rc_codes(col, rc_codes_case([s], enc_name, "flat", view_dtypes[k % len(view_dtypes)], "strided"))
+        if col.out_of_time():
+            return
+    # (b) row structure
+    fillings = [(0, 1)] if quick else [(0, 1), (5, 3)]
+    for enc_name in CODE_SYMBOLS:
+        symbols = CODE_SYMBOLS[enc_name]
+        for n in range(R + (1 if quick else 2)):
+            for lengths in itertools.product(range(M + 1), repeat=n):
+                k += 1
+                for fi, (offset, step) in enumerate(fillings[:1] if n > R else fillings):
+                    rows = fill(lengths, symbols, offset, step)
+                    equal = n >= 1 and len(set(lengths)) == 1
+                    some = [dtypes[k % len(dtypes)], dtypes[(k + 2) % len(dtypes)]] + ([] if quick or n > R else [dtypes[(k + 5) % len(dtypes)]])
+                    for dtype in (some if (quick or fi or n > R) else dtypes):
+                        check_rc_codes(col, rc_codes_case(rows, enc_name, "ragged", dtype, "contiguous"))
+                        if equal:
+                            check_rc_codes(col, rc_codes_case(rows, enc_name, "matrix", dtype, "contiguous"))
+                    vd = view_dtypes[k % len(view_dtypes)]
+                    if any(lengths):
+                        check_rc_codes(col, rc_codes_case(rows, enc_name, "ragged", vd, "strided"))
+                        if equal and n >= 2 and lengths[0] >= 2:
+                            check_rc_codes(col, rc_codes_case(rows, enc_name, "matrix", vd, "fortran"))
+            if col.out_of_time():
+                return
+    # (c) sequences from bionumpy.simulate
+    for alphabet in ("ACGT", "ACGTN", "ACTG", "ACTGN"):
+        for L in range(13):
+            for rng_seed in ((1,) if quick else (1, 2, 3)):
+                check_rc_codes(col, {"kind": "rc_codes", "source": "simulate", "container": "flat",
+                                     "sim": {"alphabet": alphabet, "lengths": L, "rng": rng_seed, "as": "flat"}})
+        for n in range(1, 4):
+            for lengths in itertools.product(range(4), repeat=n):
+                for how in (("ragged", "entry") if (n <= 2 or not quick) else ("ragged",)):
+                    check_rc_codes(col, {"kind": "rc_codes", "source": "simulate", "container": how,
+                                         "sim": {"alphabet": alphabet, "lengths": list(lengths), "rng": 1 + n, "as": how}})
+        if col.out_of_time():
+            return
+    # (d) above the bounds
+    encs = list(CODE_SYMBOLS)
+    for i in range(150 if quick else 1500):
+        enc_name = encs[i % len(encs)]
+        symbols = CODE_SYMBOLS[enc_name]
+        rows = ["".join(rng.choice(symbols) for _ in range(rng.randint(0, 12))) for _ in range(rng.randint(1, 6))]
+        dtype = rng.choice(["uint8"] + DTYPES_ALL)
+        layout = rng.choice(["contiguous", "contiguous", "strided"]) if any(rows) else "contiguous"
+        check_rc_codes(col, rc_codes_case(rows, enc_name, "ragged", dtype, layout))
+        if i % 200 == 0 and col.out_of_time():
+            return
+
+
+def report_stranded_codes(col, prefix, how, case, ivs, got, expected):
+    if got == expected:
+        return
+    if len(got) != len(expected):
+        col.fail(prefix + ":wrong-number-of-rows", case, "got %r expected %r %s" % (got, expected, how))
+        return
+    strands = sorted({iv[2] for iv, g, e in zip(ivs, got, expected) if g != e})
+    col.fail(prefix + ":wrong-sequence:strand" + "".join(strands), case, "got %r expected %r %s" % (got, expected, how))
+
+
+def check_strand_specific_codes(col, case):
+    """case: kind 'strand_codes'; the reference sequence is built from codes (seq, enc, dtype, layout) or simulated (sim).
+    Signatures: strand_specific:code-storage:<storage class>:<what>"""
+    import numpy as np
+    from bionumpy.sequence import get_strand_specific_sequences
+    ivs = [tuple(iv) for iv in case["intervals"]]
+    if case["source"] == "simulate":
+        built = col.guarded(lambda: simulated(case["sim"]), "build-input:%s:simulate" % STORAGE_TAG, case)
+        if built is None:
+            return
+        arr, (seq,), dtype = built
+        enc_label, layout, canon_t = "alphabet(%s)" % case["sim"]["alphabet"], "contiguous", "upper"
+    else:
+        seq, enc_label, dtype, layout = case["seq"], case["enc"], case["dtype"], case["layout"]
+        canon_t = "ascii" if enc_label == "ascii" else "upper"
+        arr = col.guarded(lambda: build_codes([seq], enc_label, "flat", dtype, layout),
+                          "build-input:%s:%s:flat" % (STORAGE_TAG, enc_label), case)
+    bed = col.guarded(lambda: make_bed6(ivs), "build-intervals", case)
+    if arr is None or bed is None:
+        return
+    col.case(case, nontrivial=any(iv[1] > iv[0] for iv in ivs), contract="strand_specific")
+    sig = "strand_specific:%s:%s" % (STORAGE_TAG, storage_class(dtype, layout))
+    how = "(%s codes, %s, %s)" % (dtype, layout, enc_label)
+    before = np.array(arr.raw()).tolist()
+    got = run_stranded(col, lambda: get_strand_specific_sequences(arr, bed), sig, case, ivs)
+    if got is None:
+        return
+    expected = stranded_expected(lambda iv: seq, ivs, canon_t)
+    report_stranded_codes(col, sig, how, case, ivs, got, expected)
+    col.check(np.array(arr.raw()).tolist() == before, sig + ":reference-modified", case,
+              "the reference sequence changed during the call " + how)
+
+
+def observable(ivs):
+    """interval lists outside the region `total length <= number of intervals` (there the unchanged library raises in
+    np.where - SIG_WHERE, enumerated by the original scope - and nothing can be observed)"""
+    return sum(iv[1] - iv[0] for iv in ivs) > len(ivs)
+
+
+def enum_strand_specific_codes(col, tier):
+    quick = tier == "quick"
+    rng = storage_rng(col, "strand")
+    dtypes = DTYPES_QUICK if quick else DTYPES_ALL
+    seqs = {"ascii": "AcGtN", "acgt": "ACGTT", "acgtn": "ACNGT", "actg": "CATGG", "actgn": "TNGAC"}
+    L1 = 4 if quick else 5
+    col.bounds["code_storage.strand_specific"] = (
+        "reference sequences %r cut to length %d stored with code dtypes %s: every single interval x strand for every dtype "
+        "(contiguous) and as strided view (uint8 and one wide dtype); every ordered pair of intervals x strands on the length-4 "
+        "prefix%s; simulate_sequence references of length 8 (alphabets ACGT, ACGTN): every single interval x strand, seeded "
+        "lists of 2..4 intervals; only interval lists with total length > number of intervals"
+        % (seqs, L1, dtypes, " for a dtype rotating with the first interval (quick: every 4th first interval)" if quick
+           else " for int32 and int64"))
+    k = 0
+    for enc_name, s in seqs.items():
+        s1 = s[:L1]
+        singles = [iv for iv in all_intervals(len(s1)) if observable([iv])]
+        for dtype in dtypes:
+            for iv in singles:
+                check_strand_specific_codes(col, {"kind": "strand_codes", "source": "codes", "seq": s1, "enc": enc_name,
+                                                  "dtype": dtype, "layout": "contiguous", "intervals": [list(iv)]})
+        for dtype in ("uint8", dtypes[k % len(dtypes)]):
+            for iv in singles:
+                check_strand_specific_codes(col, {"kind": "strand_codes", "source": "codes", "seq": s1, "enc": enc_name,
+                                                  "dtype": dtype, "layout": "strided", "intervals": [list(iv)]})
+        k += 1
+        s2 = s[:4]
+        ivs = all_intervals(len(s2))
+        for i1, iv1 in enumerate(ivs[::4] if quick else ivs):
+            for dtype in ([dtypes[(i1 + k) % len(dtypes)]] if quick else ["int32", "int64"]):
+                for iv2 in ivs:
+                    if observable([iv1, iv2]):
+                        check_strand_specific_codes(col, {"kind": "strand_codes", "source": "codes", "seq": s2, "enc": enc_name,
+                                                          "dtype": dtype, "layout": "contiguous",
+                                                          "intervals": [list(iv1), list(iv2)]})
+            if col.out_of_time():
+                return
+    for alphabet in ("ACGT", "ACGTN"):
+        for rng_seed in ((5,) if quick else (5, 6, 7)):
+            sim = {"alphabet": alphabet, "lengths": 8, "rng": rng_seed, "as": "flat"}
+            for iv in all_intervals(8):
+                if observable([iv]):
+                    check_strand_specific_codes(col, {"kind": "strand_codes", "source": "simulate", "sim": sim,
+                                                      "intervals": [list(iv)]})
+            for i in range(40 if quick else 200):
+                ivs = []
+                for _ in range(rng.randint(2, 4)):
+                    a = rng.randint(0, 8)
+                    ivs.append([a, rng.randint(a, 8), rng.choice("+-")])
+                if observable(ivs):
+                    check_strand_specific_codes(col, {"kind": "strand_codes", "source": "simulate", "sim": sim, "intervals": ivs})
+        if col.out_of_time():
+            return
+
+
+CODES_GENOMIC_PATHS = ["dict:extract_intervals:stranded", "dict:getitem:genomic_intervals", "dict:extract_intervals:unstranded"]
+
+
+class CodesDictBackend:
+    """GenomicSequence.from_dict over chromosomes given as EncodedArrays whose codes are stored as described by `spec`:
+    {'source': 'codes', 'chroms': [[name, text]..], 'enc', 'dtype', 'layout'} or
+    {'source': 'simulate', 'chroms': [[name, length]..], 'alphabet', 'rng'}"""
+
+    def __init__(self, spec):
+        from bionumpy.genomic_data import GenomicSequence
+        self.spec = spec
+        values, self.seqs = {}, {}
+        if spec["source"] == "simulate":
+            for i, (name, length) in enumerate(spec["chroms"]):
+                x, (text,), self.dtype = simulated({"alphabet": spec["alphabet"], "lengths": length, "rng": spec["rng"] + i, "as": "flat"})
+                values[name], self.seqs[name] = x, text
+            self.storage = storage_class(self.dtype, "contiguous")
+            self.how = "(simulate_sequence, %s codes, alphabet %s)" % (self.dtype, spec["alphabet"])
+        else:
+            for name, text in spec["chroms"]:
+                values[name] = build_codes([text], spec["enc"], "flat", spec["dtype"], spec["layout"])
+                self.seqs[name] = text
+            self.storage = storage_class(spec["dtype"], spec["layout"])
+            self.how = "(%s codes, %s, %s)" % (spec["dtype"], spec["layout"], spec["enc"])
+        self.dict_gs = GenomicSequence.from_dict(values)
+
+    def call(self, path, ivs):
+        from bionumpy.genomic_data import GenomicIntervals
+        bed = make_bed6(ivs)
+        if path == "dict:extract_intervals:stranded":
+            return self.dict_gs.extract_intervals(bed, stranded=True)
+        if path == "dict:extract_intervals:unstranded":
+            return self.dict_gs.extract_intervals(bed, stranded=False)
+        if path == "dict:getitem:genomic_intervals":
+            gi = GenomicIntervals.from_fields(self.dict_gs.genome_context, [iv[3] for iv in ivs], [iv[0] for iv in ivs],
+                                              [iv[1] for iv in ivs], [iv[2] for iv in ivs])
+            return self.dict_gs[gi]
+        raise ValueError(path)
+
+
+def check_genomic_codes(col, backend, path, ivs):
+    case = {"kind": "genomic_codes", "spec": backend.spec, "path": path, "intervals": [list(iv) for iv in ivs]}
+    col.case(case, nontrivial=any(iv[1] > iv[0] for iv in ivs), contract="genomic_sequence")
+    stranded = not path.endswith("unstranded")
+    sig = "genomic_sequence:%s:%s:%s" % (STORAGE_TAG, backend.storage, path)
+    if stranded:
+        got = run_stranded(col, lambda: backend.call(path, ivs), sig, case, ivs)
+    else:
+        got = col.guarded(lambda: rows_of(backend.call(path, ivs)), sig, case)
+    if got is None:
+        return
+    # the genomic sequence is served in the ACGTN encoding: upper case whatever the stored encoding was
+    expected = stranded_expected(lambda iv: backend.seqs[iv[3]], ivs, "acgtn", stranded)
+    report_stranded_codes(col, sig, backend.how, case, ivs, got, expected)
+
+
+def enum_genomic_codes(col, tier):
+    quick = tier == "quick"
+    rng = storage_rng(col, "genomic")
+    dtypes = ["int32", "int64"] if quick else ["int16", "int32", "int64", ">i8"]
+    texts = {"ascii": [("chr1", "AcGTn"), ("chr2", "tTGa")], "acgt": [("chr1", "ACGTT"), ("chr2", "GATC")],
+             "acgtn": [("chr1", "ACNGT"), ("chr2", "NCAT")]}
+    specs = []
+    for k, (enc_name, chroms) in enumerate(texts.items()):
+        chroms = [[name, text[:len(text) - 1] if quick else text] for name, text in chroms]
+        for dtype in dtypes:
+            specs.append({"source": "codes", "chroms": chroms, "enc": enc_name, "dtype": dtype, "layout": "contiguous"})
+        specs.append({"source": "codes", "chroms": chroms, "enc": enc_name, "dtype": (["uint8"] + dtypes)[k % (len(dtypes) + 1)],
+                      "layout": "strided"})
+    for alphabet in ("ACGT", "ACGTN"):
+        for rng_seed in ((11,) if quick else (11, 21)):
+            specs.append({"source": "simulate", "chroms": [["chr1", 4 if quick else 6], ["chr2", 3 if quick else 4]],
+                          "alphabet": alphabet, "rng": rng_seed})
+    col.bounds["code_storage.genomic_sequence"] = (
+        "GenomicSequence.from_dict over EncodedArray chromosomes: %d genomes = texts %r (quick: last symbol dropped) stored with "
+        "code dtypes %s + one strided view per encoding, and simulate_sequence chromosomes (ACGT, ACGTN); paths %s; every single "
+        "interval x strand (unstranded path: the non-empty '-' intervals), seeded lists of 2..4 intervals; stranded paths only on lists "
+        "with total length > number of intervals"
+        % (len(specs), texts, dtypes, CODES_GENOMIC_PATHS))
+    for spec in specs:
+        b = col.guarded(lambda: CodesDictBackend(spec), "genomic_sequence:%s:open" % STORAGE_TAG,
+                        {"kind": "genomic_codes-open", "spec": spec})
+        if b is None:
+            continue
+        ivs = [(a, e, s, name) for name, text in b.seqs.items() for (a, e, s) in all_intervals(len(text))]
+        for path in CODES_GENOMIC_PATHS:
+            for iv in ivs:
+                if (iv[2] == "-" and iv[1] > iv[0]) if path.endswith("unstranded") else observable([iv]):
+                    check_genomic_codes(col, b, path, [iv])
+        for i in range(12 if quick else 30):
+            path = CODES_GENOMIC_PATHS[i % 2]
+            pick = [ivs[rng.randrange(len(ivs))] for _ in range(rng.randint(2, 4))]
+            if observable(pick):
+                check_genomic_codes(col, b, path, pick)
+        if col.out_of_time():
+            return
+
+
+def enum_code_storage(col, tier):
+    enum_rc_codes(col, tier)
+    if not col.out_of_time():
+        enum_strand_specific_codes(col, tier)
+    if not col.out_of_time():
+        enum_genomic_codes(col, tier)
+
+
+# ----------------------------------------------------------------------------------------------------------------
 
 def run(tier="quick", seed=0):
     col = Collector("C14", tier, seed,
@@ -914,6 +1353,9 @@ def run(tier="quick", seed=0):
                     "case pattern and codon concatenation.  distinct = distinct (input, encoding, container/path); non-trivial = "
                     "at least one non-empty row / interval")
     col.bounds = {"encodings": ENC_SYMBOLS}
+    enum_code_storage(col, tier)
+    if col.out_of_time():
+        return col.result()
     enum_translate(col, tier)
     if not col.out_of_time():
         enum_strand_specific(col, tier)
@@ -953,6 +1395,14 @@ def replay(case):
                     check_genomic_order(col, g, case["path"], [tuple(iv) for iv in case["intervals"]])
             finally:
                 g.close()
+    elif kind == "rc_codes":
+        check_rc_codes(col, case)
+    elif kind == "strand_codes":
+        check_strand_specific_codes(col, case)
+    elif kind in ("genomic_codes", "genomic_codes-open"):
+        b = CodesDictBackend(case["spec"])
+        if kind == "genomic_codes":
+            check_genomic_codes(col, b, case["path"], [tuple(iv) for iv in case["intervals"]])
     else:
         return False, "unknown case kind %r" % (kind,)
     if col.failures:
